@@ -11,9 +11,11 @@ CLimits  == {O + 3, 2 * O + 3, UMAX}
 CInitCaps == {0}
 CAddl    == {4}
 COps     == {"insert", "get", "peek", "remove", "remove_lru", "mutate", "set_max_size",
-             "clear", "reserve", "shrink_to_fit", "retain", "debug", "clone", "drop", "new"}
+             "clear", "reserve", "shrink_to_fit", "retain", "debug", "clone", "clone_from", "drop",
+             "new"}
 (* reduced constants: quick tier and the edge dump for replay *)
 QCVSizes == {0, 3}
 QCLimits == {2 * O + 3}
-QCOps    == {"insert", "get", "remove", "mutate", "clear", "reserve", "clone", "drop", "new"}
+QCOps    == {"insert", "get", "remove", "mutate", "clear", "reserve", "clone", "clone_from", "drop",
+             "new"}
 =============================================================================
